@@ -165,7 +165,7 @@ def run(ctx):
                 ctx.require(ok, "R-C03-1", key, "add_node pushes an empty adjacency list for the new position", "add_node writes `%s` by %s with a non-empty value" % (f, via), loc_str(site.span))
             else:
                 ctx.violation("R-C03-1", key, "%s writes the traversal list `%s` (%s)" % (b.short, f, via), loc_str(site.span))
-    ctx.floor("R-C03-1", "adjacency_list_writes", n, 5)
+    ctx.floor("R-C03-1", "adjacency_list_writes", n, 2)
 
     # ------------------------------------------------------------------ R-C03-2
     ctx.rule("R-C03-2", "only the by-index accessors read the traversal lists; kernels get adjacency only through them")
@@ -191,7 +191,7 @@ def run(ctx):
         # no other source of adjacency in a kernel: no call to the name-keyed adjacency API
         other = [t.callee.short.split("::")[-1] for t in b.calls() if t.callee and t.callee.short.split("::")[-1] in ("get_successors_map", "get_predecessors_map", "get_successor_nodes", "get_predecessor_nodes", "get_all_edges", "get_edges_for_node", "get_out_edges_for_node", "get_in_edges_for_node")]
         ctx.require(calls and not other, "R-C03-2", "kernel|" + b.short, "%s reads adjacency only through the by-index accessors (%d call sites)" % (sfx.split("::")[-1], len(calls)), "%s: by-index accessor calls=%d, other adjacency sources=%s" % (sfx, len(calls), other), loc_str(b.span))
-    ctx.floor("R-C03-2", "by_index_accessor_calls_in_kernels", n_calls, 8)
+    ctx.floor("R-C03-2", "by_index_accessor_calls_in_kernels", n_calls, 4)
     # who may call the raw accessors: the list may repeat a neighbour (undirected self-loop) and carries one
     # (minimum / policy) weight per pair, not per-edge weights -- every consumer was reviewed for that
     REVIEWED = {
@@ -268,7 +268,7 @@ def run(ctx):
     # ------------------------------------------------------------------ R-C03-4
     ctx.rule("R-C03-4", "adjacency-list updates are paired with the adjacency-set updates: same positions, predecessor = swapped successor, both orientations when undirected")
     hcalls = [t for t in add_edge.calls() if t.callee and t.callee.target_path(prog) == helper.path]
-    if not ctx.floor("R-C03-4", "add_to_adjacency_vec_calls", len(hcalls), 3):
+    if not ctx.floor("R-C03-4", "add_to_adjacency_vec_calls", len(hcalls), 2):
         return
 
     def base_local(op):
